@@ -4,12 +4,18 @@ Sub-checks
   planner      deliberate(bundle) + rag_once(bundle, plan, retrieve_fn) on generated bundles: purity, op cap
                min(per-turn, per-slice), Speak first with the threshold intent, RequestRetrieve only below tau_low,
                EditGraph only at/above tau_low, intent rank monotone in s_max, one retrieve call at most.
-  chain        validated config + ctx + synthetic T1/T2 results -> make_plan_bundle -> deliberate -> make_dialog_bundle
-               -> speak -> utterance filter: the *configured* caps/thresholds/budget are the ones that bind.
+  chain        validated config (in the runtime shapes callers hand to ctx.cfg: attribute dict, plain dict, namespace of
+               dicts, Config dataclass; optional template_file / per-turn cap outside [1,16] edited in after validation)
+               + ctx + synthetic T1/T2 results (dict / _score / EpisodeRef hits) -> make_plan_bundle -> deliberate ->
+               make_dialog_bundle -> speak -> utterance filter: the *configured* caps/thresholds/budget are the ones that bind.
   speaker      speak / llm_speak on generated dialogue bundles (templates with every/unknown placeholders, stray braces,
                style prefixes, snippets): whitespace-token count <= budget, also after the orchestrator's filter.
-  refine       full orchestrator turns, counting wrapper on the retrieval stage: <= 2 calls per turn (<= 1 refinement),
-               <= 1 when max_rag_loops=0; utterance within budget; plan within caps.
+  refine       full orchestrator turns, counting wrappers on the retrieval stage and on rag_once: <= 1 refinement per turn for
+               EVERY runtime value of t3.max_rag_loops (0/1 through the validator, 2..16 edited into the validated config),
+               none at 0; the turn's first plan follows the policy on the bundle the turn built; utterance (rule-based and
+               LLM backend, template files) within budget; plan within caps (runtime per-turn cap 0/17 as well).
+  llm_planner  plan_with_llm with adapters returning the sanitiser corpus: a plan is produced only from text the sanitiser
+               accepts, and then it is the sanitised object; everything else ends in the empty fallback plan.
   sanitiser    grammar-generated planner texts (valid PLANNER_V1 objects -> mutated) against an independent
                "one JSON object, at most one fence, within documented limits" reference + the repo's own schema.
   sanitiser_atheris   byte target fuzz/c13_sanitize_fuzz.py with the same oracle.
@@ -34,14 +40,17 @@ from harness import world
 
 LEVEL = "exploration"
 RULE = ("planner: Hypothesis bundles in the real bundle shape; s_max drawn on a grid around tau_low/tau_high (equality, "
-        "+-1ulp, +-1e-9), node deltas around epsilon_edit, op cap 0-16, slice cap 0-16/absent; non-trivial = s_max within "
-        "1e-9 of a threshold or the cap binds (wanted ops > cap). chain: validated configs (thresholds, caps, tokens, "
-        "template, scheduler slice cap) + synthetic T1/T2 results through the real bundle builders; non-trivial = "
-        "configured value differs from its default and decides the outcome, or the cap/budget binds. speaker: generated "
-        "templates/styles/snippets/budgets; non-trivial = untruncated text exceeds the budget or the utterance filter "
-        "fires. refine: full turns on low-similarity worlds; non-trivial = the planner requested retrieval. sanitiser: "
-        "valid PLANNER_V1 object -> 0-2 object mutations -> serialisation -> 0-2 text mutations; non-trivial = text whose "
-        "core parses as JSON and that carries >= 1 mutation. Distinct = digest of the generated case.")
+        "+-1ulp, +-1e-9, +-4e-7, +-4e-4, +-4e-3) and beyond [0,1], node deltas around epsilon_edit, op cap 0-16, slice cap "
+        "0-16/absent; non-trivial = s_max within 1e-6 of a threshold or the cap binds (wanted ops > cap). chain: validated "
+        "configs (thresholds, caps, tokens, template, scheduler slice cap) in four runtime shapes, optionally with a template "
+        "file or a per-turn cap of 0/17/40 edited in after validation, + synthetic T1/T2 results through the real bundle "
+        "builders; non-trivial = configured value differs from its default and decides the outcome, or the cap/budget binds. "
+        "speaker: generated templates/styles/snippets/budgets, every kind of Unicode whitespace between words; non-trivial = "
+        "untruncated text exceeds the budget or the utterance filter fires. refine: full turns on low-similarity worlds, "
+        "runtime max_rag_loops 0-16, rule-based and LLM dialogue backend; non-trivial = the planner requested retrieval. "
+        "sanitiser: valid PLANNER_V1 object -> 0-2 object mutations -> serialisation -> 0-2 text mutations; non-trivial = "
+        "text whose core parses as JSON and that carries >= 1 mutation. llm_planner: the same texts through plan_with_llm. "
+        "Distinct = digest of the generated case.")
 ASSUMPTIONS = ["thresholds are in the validator's accepted domain (0 <= tau_low <= tau_high <= 1, epsilon_edit in [0,1]); "
                "s_max finite; token budgets >= 1 (validator: t3.tokens >= 1); op caps >= 0",
                "intent reference = documented rule (tests/test_t3_policy.py, t3.policy block): s>=tau_high summary; "
@@ -51,7 +60,12 @@ ASSUMPTIONS = ["thresholds are in the validator's accepted domain (0 <= tau_low 
                "leading/trailing Unicode whitespace is not prose",
                "adapters honour the LLMResult contract (text is a str); they may return more tokens than asked and may "
                "raise any Exception subclass",
-               "refine: turn-level cache and stage caches off so that every call of the retrieval stage is observed"]
+               "refine: every call of the retrieval stage entry point is observed (the wrapper sits in front of the stage cache); "
+               "with the turn-level cache on, the turn's own retrieval may be served without a stage call, which only lowers the count",
+               "refine: the utterance is what the turn hands to the meta-filter (TurnResult.line echoes the user's input when the "
+               "utterance is empty; that echo is not an utterance)",
+               "runtime configurations are validated configurations with single leaves edited afterwards (max_rag_loops 2-16, "
+               "max_ops_per_turn 0/17/40, dialogue.template_file as scripts/chat.py adds it), in the shapes the repo's own callers use"]
 
 FID_THRESHOLDS = "t3-policy-thresholds-not-wired"
 
@@ -194,13 +208,15 @@ def policies(draw):
 
 
 def around(t):
-    return [t, t, nxt(t), nxt(t, False), t + 1e-9, t - 1e-9, t + 0.05, t - 0.05]
+    # equality, +-1 ulp, and offsets just inside every plausible quantisation step (1e-9 .. 1e-2)
+    return [t, t, nxt(t), nxt(t, False), t + 1e-9, t - 1e-9, t + 4e-7, t - 4e-7, t + 4e-4, t - 4e-4, t + 4e-3, t - 4e-3,
+            t + 0.05, t - 0.05]
 
 
 @st.composite
 def s_values(draw, lo, hi):
-    pool = around(lo) + around(hi) + [0.0, 1.0, -0.25, 0.2, 0.6, 0.9]
-    return draw(st.one_of(st.sampled_from(pool), st.sampled_from(pool), st.floats(min_value=-0.5, max_value=1.0, allow_nan=False)))
+    pool = around(lo) + around(hi) + [0.0, 1.0, -0.25, 0.2, 0.6, 0.9, 1.0000001, 1.5]
+    return draw(st.one_of(st.sampled_from(pool), st.sampled_from(pool), st.floats(min_value=-0.5, max_value=1.5, allow_nan=False)))
 
 
 @st.composite
@@ -238,7 +254,7 @@ def planner_cases(draw):
            "plan": draw(st.sampled_from(["own", "own", "crafted", "crafted2"])),
            "result_shape": draw(st.sampled_from(["dict", "dict", "score_key", "nondict"]))}
     return {"policy": pol, "s_max": s, "s2": s2, "sim": sim, "nodes": nodes, "labels": labels, "ops": ops,
-            "slice": slice_cap, "tokens": tokens, "t2": t2, "text": text, "rag": rag}
+            "slice": slice_cap, "tokens": tokens, "t2": t2, "text": text, "rag": rag, "entry": draw(st.sampled_from(ENTRIES))}
 
 
 def build_bundle(case, s=None):
@@ -267,10 +283,38 @@ def eff_policy(pol):
     return pol.get("tau_low", DEF_LO), pol.get("tau_high", DEF_HI), pol.get("epsilon_edit", DEF_EPS)
 
 
-def check_planner(case, rec=None):
+ENTRIES = ["policy", "legacy", "package", "run_policy"]
+
+
+def deliberate_via(entry):
+    """The rule-based planner through one of its public entry points: t3/policy.py, the legacy facade (t3/legacy.py; this is
+    the function the package exports and the orchestrator imports), the package attribute, run_policy's rule-based branch."""
+    from clematis.engine.types import Plan
+
+    if entry == "legacy":
+        from clematis.engine.stages.t3.legacy import deliberate
+        return deliberate
+    if entry == "package":
+        import clematis.engine.stages.t3 as t3pkg
+        return t3pkg.deliberate
+    if entry == "run_policy":
+        from clematis.engine.stages.t3.policy import run_policy
+
+        def via(bundle):
+            out = run_policy({"name": "rulebased", "meta": {}}, bundle, bundle.get("cfg", {}), None)
+            return Plan(version="t3-plan-v1", reflection=False, ops=list(out.get("plan") or []), request_retrieve=None)
+        return via
     from clematis.engine.stages.t3.policy import deliberate
+    return deliberate
+
+
+def check_planner(case, rec=None):
     from clematis.engine.stages.t3.legacy import rag_once
     from clematis.engine.types import Plan, SpeakOp, RequestRetrieveOp
+
+    entry = case.get("entry", "policy")
+    deliberate = deliberate_via(entry)
+    deliberate_other = deliberate_via(ENTRIES[(ENTRIES.index(entry) + 1) % len(ENTRIES)])
 
     lo, hi, eps = eff_policy(case["policy"])
     s = case["s_max"] if case["sim"] == "present" else 0.0
@@ -288,11 +332,27 @@ def check_planner(case, rec=None):
         raise Violation("two calls of deliberate on the same bundle differ", case, "planner-nondeterministic")
     prob = plan_problem(list(p1.ops), s, lo, hi, eps, b, cap, tokens=case["tokens"])
     if prob:
-        raise Violation(prob[1], case, prob[0])
+        raise Violation(f"[{entry}] {prob[1]}", case, prob[0])
+    # the same bundle through the next entry point: judged by the same documented policy (not by agreement with the first)
+    other = ENTRIES[(ENTRIES.index(entry) + 1) % len(ENTRIES)]
+    b3 = copy.deepcopy(snap)
+    try:
+        p3 = deliberate_other(b3)
+    except Exception as e:
+        raise Violation(f"[{other}] deliberate raised {type(e).__name__}: {e}", case, "planner-raises")
+    if b3 != snap:
+        raise Violation(f"[{other}] the planner modified its bundle", case, "bundle-mutated")
+    prob = plan_problem(list(p3.ops), s, lo, hi, eps, b3, cap, tokens=case["tokens"])
+    if prob:
+        raise Violation(f"[{other}] {prob[1]}", case, prob[0])
 
     # monotone intent rank in s_max
     if case["sim"] == "present":
-        q = deliberate(build_bundle(case, s=case["s2"]))
+        b2 = build_bundle(case, s=case["s2"])
+        q = deliberate(b2)
+        prob = plan_problem(list(q.ops), case["s2"], lo, hi, eps, b2, cap, tokens=case["tokens"])
+        if prob:
+            raise Violation(f"second bundle (s_max={case['s2']!r}): {prob[1]}", case, prob[0])
         if p1.ops and q.ops:
             (sa, ia), (sb, ib) = sorted([(s, p1.ops[0].intent), (case["s2"], q.ops[0].intent)], key=lambda t: t[0])
             if RANK[ia] > RANK[ib]:
@@ -363,19 +423,23 @@ def check_planner(case, rec=None):
             raise Violation(f"rag metrics {m1} after a refinement", case, "rag-metrics")
 
     if rec is not None:
-        near = any(abs(s - t) <= 1e-9 for t in (lo, hi))
+        near = any(abs(s - t) <= 1e-6 for t in (lo, hi))
         elig = any(abs(n["delta"]) >= eps for n in case["nodes"])
         wanted = 1 + (1 if (s >= lo and elig) else 0) + (1 if s < lo else 0)
         binding = wanted > cap
         kinds = [o.kind for o in p1.ops]
         labels = [f"intent={p1.ops[0].intent}" if p1.ops else "empty-plan", f"ops={len(kinds)}"]
         labels += ["near-threshold"] if near else []
+        labels += ["near-1ulp"] if any(s != t and abs(s - t) <= 2.5e-16 for t in (lo, hi)) else []
+        labels += ["near-1e-9..1e-6"] if any(1e-10 <= abs(s - t) <= 1e-6 for t in (lo, hi)) else []
+        labels += ["s>1"] if s > 1.0 else []
         labels += ["cap-binds"] if binding else []
         labels += ["cap=0"] if cap == 0 else []
         labels += ["slice-binds"] if case["slice"] is not None and case["slice"] < case["ops"] else []
         labels += ["has-edit"] if "EditGraph" in kinds else []
         labels += ["has-rr"] if "RequestRetrieve" in kinds else []
         labels += ["policy-absent"] if case["policy"] is None else []
+        labels += [f"entry={entry}"]
         labels += ["refined"] if want_calls else (["rag-blocked"] if rag["already_used"] else ["rag-noop"])
         nt = near or binding
         rec.case(nontrivial=nt, dig=digest(case) if nt else None, labels=labels,
@@ -395,6 +459,10 @@ def replay_planner(case):
 # (2) chain: config -> ctx -> real bundle builders -> planner -> dialogue -> filter
 # =====================================================================================================
 
+WS_TEXTS = ["x\ny\tz w", "nb\u00a0sp em\u2003sp", "a\r\nb\x0bc\x1fd\u2028e\x85f", "one\n\ntwo\n three\tfour  five"]
+FILE_TEMPLATES = ["{style_prefix}|\nsummary: {labels}.\nnext: {intent}\n", "line one\nline two\n{snippets_text}\n{labels}\tend",
+                  "a\tb\tc\td\te\tf {intent}", "{identity}\n\n{snippets_text}\n", "w1\u00a0w2\u2003w3\x1cw4 w5\x0bw6 {labels}",
+                  "one two three"]
 TEMPLATES = ["{style_prefix}| summary: {labels}. next: {intent}", "summary: {labels}. next: {intent}",
              "{labels} {intent} {snippets} {snippets_text} {style_prefix} {identity}", "{unknown} x", "a { b", "one two three four five",
              "{identity}\n{snippets_text}", "I am Qwen {intent}"]
@@ -428,46 +496,124 @@ def chain_cases(draw):
         deltas.append(d)
     n_hits = draw(st.integers(0, 3))
     hits = [{"id": f"ep{i}", "score": float(draw(st.sampled_from([s, 0.0, 0.3, 0.9]))), "owner": "A",
-             "text": draw(st.sampled_from(["apple pear", "", "I am Qwen", "a b c d e f g h"]))} for i in range(n_hits)]
-    return {"t3": t3, "s_max": s, "slice": slice_cap, "deltas": deltas, "hits": hits,
+             "text": draw(st.sampled_from(["apple pear", "", "I am Qwen", "a b c d e f g h"] + WS_TEXTS))} for i in range(n_hits)]
+    case = {"t3": t3, "s_max": s, "slice": slice_cap, "deltas": deltas, "hits": hits,
             "style": draw(st.sampled_from(STYLES)), "text": draw(st.sampled_from(["hello world", "apple", ""])),
             "sim": draw(st.sampled_from(["present"] * 7 + ["absent"]))}
+    # runtime shapes of ctx.cfg seen in the repo: attribute dict (run_smoke_turn, scripts/chat.py), plain dict (tests),
+    # top-level namespace with dict leaves (scripts/console.py), the Config dataclass (engine/types.py)
+    case["cfg_shape"] = draw(st.sampled_from(["attr", "attr", "plain", "ns", "dataclass"]))
+    case["hit_shape"] = draw(st.sampled_from(["dict", "dict", "_score", "obj"]))
+    if draw(st.sampled_from([False, False, True])):
+        # scripts/chat.py adds t3.dialogue.template_file to the runtime config (not a validator key): edited in after validation
+        case["template_file"] = {"ext": draw(st.sampled_from(["txt", "txt", "json", "jsonl", "missing"])),
+                                 "text": draw(st.sampled_from(FILE_TEMPLATES))}
+    if draw(st.sampled_from([False, False, False, True])):
+        # per-turn op cap outside the validator's [1, 16] ("caps incl. 0"): runtime configs built by scripts / the Config
+        # dataclass never pass the validator, so the value is edited into the validated configuration
+        case["ops_rt"] = draw(st.sampled_from([0, 0, 17, 40]))
+    if slice_cap is not None and draw(st.booleans()):
+        case["slice_extra"] = draw(st.sampled_from([{"t1_pops": 0}, {"t2_k": None, "wall_ms": 5}, {"t1_iters": 3, "t3_ops_x": 0}]))
+    return case
 
 
-def _chain_objects(case):
+def _plain(x):
+    if isinstance(x, dict):
+        return {k: _plain(v) for k, v in x.items()}
+    if isinstance(x, list):
+        return [_plain(v) for v in x]
+    return x
+
+
+def _write_template_file(spec, root):
+    """Materialise a t3.dialogue.template_file spec under `root`; returns the path to configure."""
+    ext = spec["ext"]
+    path = os.path.join(root, "dialogue_template." + ("txt" if ext == "missing" else ext))
+    if ext == "missing":
+        return path
+    with open(path, "w", encoding="utf-8", newline="") as f:
+        if ext == "txt":
+            f.write(spec["text"])
+        elif ext == "json":
+            json.dump({"template": spec["text"]}, f)
+        else:
+            f.write("\n" + json.dumps({"template": spec["text"]}) + "\n" + json.dumps({"template": "second line is ignored"}) + "\n")
+    return path
+
+
+def _shape_cfg(cfg, shape):
+    """The validated configuration in one of the runtime shapes the repo's own callers hand to ctx.cfg."""
+    if shape == "plain":
+        return _plain(cfg)
+    if shape == "ns":
+        return SimpleNamespace(**{k: v for k, v in cfg.items()})
+    if shape == "ns_plain":
+        return SimpleNamespace(**_plain(cfg))
+    if shape == "dataclass":
+        from clematis.engine.types import Config
+        import dataclasses
+
+        names = {f.name for f in dataclasses.fields(Config)}
+        return Config(**{k: v for k, v in _plain(cfg).items() if k in names})
+    return cfg
+
+
+def _chain_objects(case, root=None):
     cfg = world.validated_cfg({"t3": copy.deepcopy(case["t3"])})
+    tf = case.get("template_file")
+    if tf and root is not None:
+        cfg["t3"]["dialogue"]["template_file"] = _write_template_file(tf, root)
+    if case.get("ops_rt") is not None:
+        cfg["t3"]["max_ops_per_turn"] = case["ops_rt"]
+    cfg = _shape_cfg(cfg, case.get("cfg_shape", "attr"))
     extra = {"input_text": case["text"]}
     if case["style"]:
         extra["style_prefix"] = case["style"]
     if case["slice"] is not None:
-        extra["slice_budgets"] = {"t3_ops": case["slice"]}
+        extra["slice_budgets"] = dict(case.get("slice_extra") or {}, t3_ops=case["slice"])
     ctx = world.make_ctx(cfg, agent="A", turn_id=1, now=world.NOW_ISO, **extra)
     t1 = SimpleNamespace(graph_deltas=copy.deepcopy(case["deltas"]), metrics={"pops": 1, "iters": 1, "propagations": 0})
     m = {"k_returned": len(case["hits"]), "tier_sequence": ["exact_semantic"]}
     if case["sim"] == "present":
         m["sim_stats"] = {"mean": case["s_max"], "max": case["s_max"]}
-    t2 = SimpleNamespace(retrieved=copy.deepcopy(case["hits"]), metrics=m)
+    hs = case.get("hit_shape", "dict")
+    hits = copy.deepcopy(case["hits"])
+    if hs == "_score":
+        hits = [{**{k: v for k, v in h.items() if k != "score"}, "_score": h["score"]} for h in hits]
+    elif hs == "obj":
+        from clematis.engine.types import EpisodeRef
+
+        hits = [EpisodeRef(id=h["id"], owner=h["owner"], score=h["score"], text=h.get("text", "")) for h in hits]
+    t2 = SimpleNamespace(retrieved=hits, metrics=m)
     return cfg, ctx, {}, t1, t2
 
 
 def check_chain(case, rec=None):
-    from clematis.engine.stages.t3.bundle import make_plan_bundle
-    from clematis.engine.stages.t3.legacy import make_dialog_bundle
-    from clematis.engine.stages.t3.policy import deliberate
-    from clematis.engine.stages.t3.dialogue import speak
+    root = tempfile.mkdtemp(prefix="c13_chain_", dir=os.environ.get("VERIF_TMP") or None) if case.get("template_file") else None
+    try:
+        _check_chain(case, rec, root)
+    finally:
+        if root is not None:
+            shutil.rmtree(root, ignore_errors=True)
+
+
+def _check_chain(case, rec, root):
+    # exactly the callables orchestrator/core.py imports from the t3 package (deliberate is the legacy facade there)
+    from clematis.engine.stages.t3 import make_plan_bundle, make_dialog_bundle, deliberate, speak
     from clematis.engine.orchestrator.core import _sanitize_utterance
 
-    cfg, ctx, state, t1, t2 = _chain_objects(case)
+    cfg, ctx, state, t1, t2 = _chain_objects(case, root)
     lo, hi, eps = eff_policy(case["t3"].get("policy"))
     tokens = case["t3"]["tokens"]
-    cap = case["t3"]["max_ops_per_turn"] if case["slice"] is None else min(case["t3"]["max_ops_per_turn"], case["slice"])
+    turn_cap = case["t3"]["max_ops_per_turn"] if case.get("ops_rt") is None else case["ops_rt"]
+    cap = turn_cap if case["slice"] is None else min(turn_cap, case["slice"])
     s = case["s_max"] if case["sim"] == "present" else 0.0
     b = make_plan_bundle(ctx, state, t1, t2)
     if b != make_plan_bundle(ctx, state, t1, t2):
         raise Violation("make_plan_bundle is not deterministic", case, "bundle-nondeterministic")
-    if b["agent"]["caps"] != {"tokens": tokens, "ops": case["t3"]["max_ops_per_turn"]}:
+    if b["agent"]["caps"] != {"tokens": tokens, "ops": turn_cap}:
         raise Violation(f"bundle caps {b['agent']['caps']} differ from the configured tokens={tokens}, "
-                        f"max_ops_per_turn={case['t3']['max_ops_per_turn']}", case, "bundle-caps")
+                        f"max_ops_per_turn={turn_cap}", case, "bundle-caps")
     if b.get("slice_caps", {}).get("t3_ops") != case["slice"]:
         raise Violation(f"bundle slice cap {b.get('slice_caps')} differs from the slice budget {case['slice']}", case, "bundle-slice")
     snap = copy.deepcopy(b)
@@ -510,7 +656,12 @@ def check_chain(case, rec=None):
         nt = decides or wanted > cap or bool(metrics.get("truncated"))
         labels = (["policy-decides"] if decides else []) + (["cap-binds"] if wanted > cap else []) + \
                  (["truncated"] if metrics.get("truncated") else []) + (["filtered"] if meta else []) + \
-                 (["wiring-known"] if wiring else []) + (["slice"] if case["slice"] is not None else []) + [f"ops={len(ops)}"]
+                 (["wiring-known"] if wiring else []) + (["slice"] if case["slice"] is not None else []) + [f"ops={len(ops)}"] + \
+                 [f"cfg={case.get('cfg_shape', 'attr')}", f"hits={case.get('hit_shape', 'dict')}"] + \
+                 ([f"ops_rt={case['ops_rt']}"] if case.get("ops_rt") is not None else []) + \
+                 ([f"template_file={case['template_file']['ext']}"] if case.get("template_file") else []) + \
+                 (["template-file-used"] if db["dialogue"].get("template_file") else []) + \
+                 (["utter-exotic-ws"] if any(c.isspace() and c != " " for c in utter) else [])
         rec.case(nontrivial=nt, dig=digest(case) if nt else None, labels=labels,
                  sample={"t3": case["t3"], "s_max": s, "slice": case["slice"], "ops": [o.kind for o in ops], "utter": utter} if nt else None)
 
@@ -542,6 +693,7 @@ PH = ["{labels}", "{intent}", "{snippets}", "{snippets_text}", "{style_prefix}",
 ODD = ["{foo}", "{0}", "{}", "{", "}", "{{", "}}", "{labels!r}", "{labels:>30}", "{intent.__class__}", "{labels[0]}", "{style_prefix}|",
        "{intent!x}", "{labels:{intent}}", "{ labels }"]
 LIT = ["summary:", " ", "  ", "\n", "\t", "next:", ".", "word", "a b c d e f g", "I am Qwen", "i'm qwen", "\u00a0", "\u2003", "\x1c",
+       "\r\n", "\x0b", "\x0c", "\x85", "\u2028", "\u3000", "a\nb\tc\rd", "I\nam\tQwen",
        "I am Clematis. I am Clematis. I am Clematis! ", "é", "large language model developed by Alibaba Cloud", "|", " | "]
 WORDS = ["alpha", "beta", "I", "am", "Qwen", "Clematis.", "x", "é", "|", "calm|", "word"]
 
@@ -558,13 +710,13 @@ def speaker_cases(draw):
     else:
         template = draw(st.text(alphabet=st.sampled_from(list("ab {}|\n\t!:.0é")), min_size=1, max_size=24))
     style = draw(st.sampled_from(STYLES + ["I am Qwen"]))
-    labels_plan = draw(st.lists(st.sampled_from(LABELS + ["I am Qwen", "a b c d"]), max_size=6))
-    labels_t1 = draw(st.lists(st.sampled_from(LABELS), max_size=4))
+    labels_plan = draw(st.lists(st.sampled_from(LABELS + ["I am Qwen", "a b c d", "tab\tbed", "line\nbreak", "nb\u00a0sp"]), max_size=6))
+    labels_t1 = draw(st.lists(st.sampled_from(LABELS + ["t1\tlabel x"]), max_size=4))
     hits = []
     for i in range(draw(st.integers(0, 4))):
         h = {"id": draw(st.sampled_from(["e1", "e2", "ep 3", "é4", ""])), "score": draw(st.sampled_from([0.9, 0.5, 0.0])), "owner": "A"}
         if draw(st.booleans()):
-            h["text"] = draw(st.sampled_from(["apple pear", "one two three four five six", "I am Qwen", "", "x\ny"]))
+            h["text"] = draw(st.sampled_from(["apple pear", "one two three four five six", "I am Qwen", "", "x\ny"] + WS_TEXTS))
         hits.append(h)
     identity = draw(st.sampled_from([None, "You are Clematis.", "I am Clematis. " * 4, " ".join(["id"] * 30), ""]))
     dialogue = {"template": template, "include_top_k_snippets": draw(st.integers(0, 4)), "template_file": None, "history": []}
@@ -576,13 +728,14 @@ def speaker_cases(draw):
     adapter = {"kind": draw(st.sampled_from(["none", "none", "det", "result", "dict", "raise_adapter", "raise_runtime", "raise_value"]))}
     if adapter["kind"] in ("result", "dict"):
         toks = draw(st.lists(st.sampled_from(WORDS), max_size=40))
-        sep = draw(st.sampled_from([" ", " ", "  ", "\n", " \t "]))
+        sep = draw(st.sampled_from([" ", " ", "  ", "\n", " \t ", "\t", "\r\n", "\u00a0", "\u2003", "\x0b", "\x1f", "\u2028", "\n\n"]))
         adapter["text"] = draw(st.sampled_from(["", " ", f"{style}| " if style else ""])) + sep.join(toks)
         adapter["tokens"] = draw(st.sampled_from([0, len(toks), 999]))
         adapter["truncated"] = draw(st.booleans())
     return {"template": template, "style": style, "labels_plan": labels_plan, "labels_t1": labels_t1, "hits": hits,
             "dialogue": dialogue, "plan_kind": plan_kind, "op_tokens": op_tokens, "agent_tokens": agent_tokens,
-            "intent": draw(st.sampled_from(["ack", "question", "assertion", "summary"])), "adapter": adapter}
+            "intent": draw(st.sampled_from(["ack", "question", "assertion", "summary"])), "adapter": adapter,
+            "entry": draw(st.sampled_from(["dialogue", "dialogue", "legacy", "package"]))}
 
 
 def _speaker_objects(case):
@@ -625,8 +778,15 @@ def _make_adapter(spec):
 
 
 def check_speaker(case, rec=None):
-    from clematis.engine.stages.t3.dialogue import speak, llm_speak
     from clematis.engine.orchestrator.core import _sanitize_utterance
+
+    entry = case.get("entry", "dialogue")
+    if entry == "legacy":
+        from clematis.engine.stages.t3.legacy import speak, llm_speak
+    elif entry == "package":
+        from clematis.engine.stages.t3 import speak, llm_speak
+    else:
+        from clematis.engine.stages.t3.dialogue import speak, llm_speak
 
     db, plan = _speaker_objects(case)
     has_speak = case["plan_kind"] in ("speak", "speak_second")
@@ -666,9 +826,10 @@ def check_speaker(case, rec=None):
         outs.append(utter)
     if rec is not None:
         nt = trunc or filt
-        labels = [f"plan={case['plan_kind']}", f"adapter={case['adapter']['kind']}"] + (["truncated"] if trunc else []) + \
+        labels = [f"plan={case['plan_kind']}", f"adapter={case['adapter']['kind']}", f"entry={entry}"] + (["truncated"] if trunc else []) + \
                  (["filtered"] if filt else []) + (["budget=1"] if budget == 1 else []) + (["style"] if case["style"] else []) + \
-                 (["op-budget"] if has_speak and case["op_tokens"] else ["agent-budget"])
+                 (["op-budget"] if has_speak and case["op_tokens"] else ["agent-budget"]) + \
+                 (["utter-exotic-ws"] if any(c.isspace() and c != " " for u in outs for c in u) else [])
         rec.case(nontrivial=nt, dig=digest(case) if nt else None, labels=labels,
                  sample={"template": case["template"], "style": case["style"], "budget": budget, "utter": outs} if nt else None)
 
@@ -697,8 +858,9 @@ def refine_cases(draw):
     eps = []
     for i in range(draw(st.integers(0, 5))):
         words = draw(st.lists(st.sampled_from(NEAR), min_size=1, max_size=4))
-        eps.append({"id": f"e{i}", "owner": draw(st.sampled_from(["A", "world"])), "text": " ".join(words),
-                    "vec_full": world.BowEncoder().vec(" ".join(words)), "ts": world.iso_minus(world.NOW_ISO, 3600 * (i + 1))})
+        ep_text = draw(st.sampled_from([" ", " ", "\n", "\t", "\u00a0", " \r\n"])).join(words)   # snippet texts reach the utterance
+        eps.append({"id": f"e{i}", "owner": draw(st.sampled_from(["A", "world"])), "text": ep_text,
+                    "vec_full": world.BowEncoder().vec(ep_text), "ts": world.iso_minus(world.NOW_ISO, 3600 * (i + 1))})
     turns = []
     for _ in range(draw(st.integers(1, 2))):
         k = draw(st.sampled_from(["far", "far", "mixed", "near"]))
@@ -709,15 +871,38 @@ def refine_cases(draw):
     if draw(st.booleans()):
         t3["dialogue"] = {"template": draw(st.sampled_from(TEMPLATES))}
     sched = draw(st.sampled_from([None, None, None, 0, 1, 2, 3]))
-    return {"nodes": nodes, "edges": edges, "eps": eps, "turns": turns, "t3": t3, "sched_t3_ops": sched,
+    case = {"nodes": nodes, "edges": edges, "eps": eps, "turns": turns, "t3": t3, "sched_t3_ops": sched,
             "t2": {"sim_threshold": draw(st.sampled_from([0.0, 0.3])), "k_retrieval": draw(st.sampled_from([1, 4, 64])),
                    "owner_scope": draw(st.sampled_from(["any", "agent", "world"]))},
             "planner": draw(st.sampled_from(["real", "real", "rr_always", "rr_twice"])),
             "style": draw(st.sampled_from(["", "calm", "calm voice"]))}
+    # The validator admits only max_rag_loops in {0, 1}, but the orchestrator reads the knob from whatever ctx.cfg carries
+    # (scripts and the Config dataclass build runtime configs that never pass the validator): larger values are edited into
+    # the validated configuration. "A turn performs at most one retrieval refinement" is unconditional.
+    case["loops_rt"] = draw(st.sampled_from([None, None, None, 2, 2, 3, 7, 16]))
+    case["cfg_shape"] = draw(st.sampled_from(["attr", "attr", "ns", "ns_plain"]))
+    if draw(st.sampled_from([False] * 5 + [True])):
+        case["ops_rt"] = draw(st.sampled_from([0, 17]))
+    case["caches"] = draw(st.sampled_from([False, False, True]))
+    if draw(st.sampled_from([False, False, True])):
+        case["t3"]["policy"] = draw(st.sampled_from([{"tau_low": 1.0, "tau_high": 1.0}, {"tau_low": 0.75, "tau_high": 0.9},
+                                                      {"tau_low": 0.0, "tau_high": 0.0}, {"tau_low": 0.5}]))
+    if draw(st.sampled_from([False, False, False, True])):
+        case["template_file"] = {"ext": draw(st.sampled_from(["txt", "json"])), "text": draw(st.sampled_from(FILE_TEMPLATES))}
+    if draw(st.sampled_from([False, False, True])):
+        toks = draw(st.lists(st.sampled_from(WORDS), min_size=0, max_size=24))
+        sep = draw(st.sampled_from([" ", "\n", "\t", " \r\n", "\u00a0", "\u2003", "\x0b"]))
+        case["llm"] = {"kind": draw(st.sampled_from(["result", "result", "dict", "raise_runtime"])), "text": sep.join(toks),
+                       "tokens": draw(st.sampled_from([0, len(toks)])), "truncated": draw(st.booleans())}
+        # LLM completions are long: make the budget bind, also against the style prefix alone (prefix tokens >= budget)
+        case["style"] = draw(st.sampled_from(["", "calm", "calm voice", "calm voice", "a b c"]))
+        case["t3"]["tokens"] = draw(st.sampled_from([1, 1, 2, 3, 5, 8]))
+    return case
 
 
 def check_refine(case, rec=None):
     import clematis.engine.orchestrator as orch
+    import clematis.engine.orchestrator.core as core
     from clematis.engine.stages.t2 import t2_semantic as real_t2
     from clematis.engine.stages.t3.policy import deliberate
     from clematis.engine.types import Plan, RequestRetrieveOp
@@ -725,16 +910,33 @@ def check_refine(case, rec=None):
 
     world.reset_engine_globals()
     saved = {k: (hasattr(orch, k), getattr(orch, k, None)) for k in ("t2_semantic", "t3_deliberate")}
+    real_rag = getattr(core, "rag_once", None)      # the name the turn code calls; absent -> only the stage calls are counted
     calls = []
+    rags = []
     seen = {}
 
     def counting_t2(ctx, state, text, t1):
         calls.append(text)
         return real_t2(ctx, state, text, t1)
 
+    def counting_rag(*a, **k):
+        out = real_rag(*a, **k)
+        used = bool(out[1].get("rag_used")) if isinstance(out, tuple) and len(out) == 2 and isinstance(out[1], dict) else True
+        rags.append(used)
+        return out
+
+    real_t4 = core.t4_filter
+
+    def seeing_t4(ctx, state, t1, t2, plan, utter):
+        seen["utter"] = utter      # the utterance the turn produced (TurnResult.line echoes the input when it is empty)
+        return real_t4(ctx, state, t1, t2, plan, utter)
+
+    turn_deliberate = getattr(core, "deliberate", None) or deliberate     # the planner run_turn calls when nothing is patched in
+
     def delib(ctx, state, bundle):
         seen["bundle"] = copy.deepcopy(bundle)
-        plan = deliberate(bundle)
+        plan = turn_deliberate(bundle)
+        seen["own"] = plan
         if case["planner"] != "real":
             rr = RequestRetrieveOp(kind="RequestRetrieve", query=bundle["text"]["input"], owner="any", k=2,
                                    tier_pref="cluster_semantic", hints={})
@@ -743,17 +945,37 @@ def check_refine(case, rec=None):
         seen["plan0"] = plan
         return plan
 
+    # planner="real": nothing is patched into the planner hook, run_turn takes its own `deliberate(bundle)` branch and is only
+    # observed through the name it calls; the other planners go through the documented t3_deliberate hook
+    real_delib = getattr(core, "deliberate", None)
+    use_hook = case["planner"] != "real" or real_delib is None
+
+    def observing_delib(bundle):
+        seen["bundle"] = copy.deepcopy(bundle)
+        plan = real_delib(bundle)
+        seen["own"] = seen["plan0"] = plan
+        return plan
+
     nt_any = False
     labels = []
     try:
         orch.t2_semantic = counting_t2
-        orch.t3_deliberate = delib
+        if use_hook:
+            orch.t3_deliberate = delib
+        else:
+            core.deliberate = observing_delib
+        core.t4_filter = seeing_t4
+        if real_rag is not None:
+            core.rag_once = counting_rag
         with world.sandbox() as root:
             eng = observe.Engine({"graphs": {"g1": {"nodes": case["nodes"], "edges": case["edges"]}}, "eps": case["eps"],
                                   "agents": {"A": ["g1"]}}, root)
-            over = {"t1": {"decay": {"mode": "exp_floor", "rate": 0.6, "floor": 0.05}, "cache": {"enabled": False}},
-                    "t2": dict(case["t2"], cache={"enabled": False}), "t3": copy.deepcopy(case["t3"]),
-                    "t4": {"cache": {"enabled": False}}}
+            cache_on = bool(case.get("caches"))
+            over = {"t1": {"decay": {"mode": "exp_floor", "rate": 0.6, "floor": 0.05}, "cache": {"enabled": cache_on}},
+                    "t2": dict(case["t2"], cache={"enabled": cache_on}), "t3": copy.deepcopy(case["t3"]),
+                    "t4": {"cache": {"enabled": cache_on}}}
+            if case.get("llm"):
+                over["t3"]["backend"] = "llm"
             if case["sched_t3_ops"] is not None:
                 over["scheduler"] = {"enabled": True, "quantum_ms": 10 ** 7,
                                      "budgets": {"t1_pops": None, "t1_iters": None, "t2_k": None, "wall_ms": 10 ** 8,
@@ -761,10 +983,25 @@ def check_refine(case, rec=None):
             cfg = eng.cfg(over)
             budget = case["t3"]["tokens"]
             loops = case["t3"]["max_rag_loops"]
+            if case.get("loops_rt") is not None:
+                loops = case["loops_rt"]
+                cfg["t3"]["max_rag_loops"] = loops          # runtime configuration edited after validation
+            if case.get("template_file"):
+                cfg["t3"]["dialogue"]["template_file"] = _write_template_file(case["template_file"], root)
+            cap = case["t3"]["max_ops_per_turn"]
+            if case.get("ops_rt") is not None:
+                cap = cfg["t3"]["max_ops_per_turn"] = case["ops_rt"]
+            cfg = _shape_cfg(cfg, case.get("cfg_shape", "attr"))
+            lo, hi, eps = eff_policy(case["t3"].get("policy"))
+            if case["sched_t3_ops"] is not None:
+                cap = min(cap, case["sched_t3_ops"])
             for i, text in enumerate(case["turns"], 1):
                 del calls[:]
+                del rags[:]
                 seen.clear()
                 extra = {"style_prefix": case["style"]} if case["style"] else {}
+                if case.get("llm"):
+                    extra["llm_adapter"] = _make_adapter(case["llm"])
                 r = eng.turn("A", text, cfg, i, world.NOW_MS + i * 1000, ctx_extra=extra)
                 if r["exc"] is not None:
                     labels.append("turn-raised")
@@ -772,40 +1009,60 @@ def check_refine(case, rec=None):
                         rec.note("turn_raised_example", r["exc"])
                     continue
                 n = len(calls)
+                n_ref = sum(1 for u in rags if u)
                 plan0 = seen.get("plan0")
                 req = plan0 is not None and any(getattr(o, "kind", None) == "RequestRetrieve" for o in plan0.ops)
-                if n > 2:
-                    raise Violation(f"turn {i}: the retrieval stage ran {n} times (> 1 refinement); queries {calls}", case, "refine-twice")
-                if loops == 0 and n > 1:
-                    raise Violation(f"turn {i}: max_rag_loops=0 but the retrieval stage ran {n} times", case, "refine-disabled")
-                if n == 2 and not req:
+                if n > 2 or n_ref > 1:
+                    raise Violation(f"turn {i}: {max(n - 1, n_ref)} retrieval refinements in one turn (the retrieval stage ran {n} times, "
+                                    f"rag_once refined {n_ref} times; runtime t3.max_rag_loops={loops}); queries {calls}", case, "refine-twice")
+                if loops == 0 and (n > 1 or n_ref):
+                    raise Violation(f"turn {i}: max_rag_loops=0 but the retrieval stage ran {n} times ({n_ref} refinements)", case,
+                                    "refine-disabled")
+                if (n == 2 or n_ref) and not req:
                     raise Violation(f"turn {i}: a refinement ran although the plan requested none", case, "refine-unrequested")
-                line = r["line"]
+                if case["planner"] == "real" and seen.get("bundle") is not None:
+                    # the turn's own first plan against the documented policy, on the bundle the turn really built
+                    b = seen["bundle"]
+                    s_turn = float(((b.get("t2") or {}).get("metrics") or {}).get("sim_stats", {}).get("max", 0.0))
+                    prob = plan_problem(list(seen["own"].ops), s_turn, lo, hi, eps, b, cap, tokens=budget)
+                    if prob:
+                        raise Violation(f"turn {i}: first plan of the turn: {prob[1]}", case, "turn-" + prob[0])
+                line = seen["utter"] if isinstance(seen.get("utter"), str) else r["line"]
                 if ntok(line) > budget:
                     raise Violation(f"turn {i}: utterance has {ntok(line)} whitespace tokens, t3.tokens={budget}: {line!r}", case, "turn-utter-budget")
                 final = r.get("plan")
                 if final is not None and case["planner"] == "real":
-                    cap = case["t3"]["max_ops_per_turn"]
-                    if case["sched_t3_ops"] is not None:
-                        cap = min(cap, case["sched_t3_ops"])
                     if len(final.ops) > cap:
                         raise Violation(f"turn {i}: final plan has {len(final.ops)} ops, cap {cap}", case, "turn-op-cap")
                 labels.append(f"t2calls={n}")
                 if req:
                     nt_any = True
                     labels.append("requested")
-                    if n == 2:
+                    if n == 2 or n_ref:
                         labels.append("refined")
+                        if loops >= 2:
+                            labels.append("refined-with-loops>=2")
                 if r.get("plan") is None:
                     labels.append("yielded")
+                if line and any(c.isspace() and c != " " for c in line):
+                    labels.append("utter-exotic-ws")
     finally:
+        core.t4_filter = real_t4
+        if real_delib is not None:
+            core.deliberate = real_delib
+        if real_rag is not None:
+            core.rag_once = real_rag
         for k, (had, v) in saved.items():
             if had:
                 setattr(orch, k, v)
             elif hasattr(orch, k):
                 delattr(orch, k)
     if rec is not None:
-        labels += [f"planner={case['planner']}", f"loops={case['t3']['max_rag_loops']}"]
+        labels += [f"planner={case['planner']}", f"loops={loops}", f"cfg={case.get('cfg_shape', 'attr')}"]
+        labels += (["caches-on"] if case.get("caches") else []) + (["backend=llm"] if case.get("llm") else []) + \
+                  (["template_file"] if case.get("template_file") else []) + (["policy"] if case["t3"].get("policy") else []) + \
+                  (["rag-hook-absent"] if real_rag is None else []) + (["planner-hook-unused"] if not use_hook else []) + \
+                  ([f"ops_rt={case['ops_rt']}"] if case.get("ops_rt") is not None else [])
         rec.case(nontrivial=nt_any, dig=digest(case) if nt_any else None, labels=labels,
                  sample={"turns": case["turns"], "t3": case["t3"], "planner": case["planner"], "labels": labels} if nt_any else None,
                  n=1)
@@ -1158,6 +1415,90 @@ def replay_sanitiser(case):
     check_sanitiser(case, None)
 
 
+# ---------------------------------------------------------------- the LLM planner that consumes the sanitiser's verdict
+
+@st.composite
+def llm_planner_cases(draw):
+    c = draw(sanitiser_cases())
+    return {"text": c["text"], "muts": c["muts"], "result": draw(st.sampled_from(["result", "dict", "ns"])),
+            "state": draw(st.sampled_from(["ns", "dict", "ns_nologs"])), "reps": draw(st.sampled_from([1, 1, 2])),
+            "entry": draw(st.sampled_from(["policy", "legacy", "package"]))}
+
+
+def check_llm_planner(case, rec=None):
+    """plan_with_llm (t3/policy.py) is where planner text from an LLM is accepted: whatever it returns as a plan must be
+    the sanitiser's accepted object; any text the sanitiser rejects must end in the empty fallback plan."""
+    import clematis.engine.stages.t3.policy as policy
+    from clematis.engine.policy.sanitize import parse_and_validate
+    from clematis.engine.policy.json_schemas import PLANNER_V1
+    from clematis.adapters.llm import LLMResult
+
+    text = case["text"]
+    if isinstance(text, dict) and "__bytes__" in text:
+        text = bytes.fromhex(text["__bytes__"])
+    # soundness of the sanitiser's own verdict on this text (reference model); raises Violation itself
+    check_sanitiser({"text": case["text"], "expect": None, "muts": case.get("muts")}, None)
+    ok, obj = parse_and_validate(text, PLANNER_V1) if isinstance(text, str) else (False, "non-string")
+
+    class _Adapter:
+        name = "Stub"
+
+        def generate(self, prompt, max_tokens=256, temperature=0.2):
+            if case["result"] == "result":
+                return LLMResult(text=text, tokens=0, truncated=False)
+            if case["result"] == "dict":
+                return {"text": text, "tokens": 0, "truncated": False}
+            return SimpleNamespace(text=text)
+
+    cfg = world.validated_cfg({"t3": {"backend": "llm"}})
+    state = {"ns": SimpleNamespace(logs=[]), "dict": {"logs": []}, "ns_nologs": SimpleNamespace()}[case["state"]]
+    had = hasattr(policy, "_get_llm_adapter_from_cfg")
+    if not had:
+        raise RuntimeError("harness: clematis.engine.stages.t3.policy._get_llm_adapter_from_cfg is gone; update checks/c13.py")
+    orig = policy._get_llm_adapter_from_cfg
+    policy._get_llm_adapter_from_cfg = lambda cfg_: _Adapter()
+    try:
+        outs = []
+        for i in range(case["reps"]):
+            ctx = world.make_ctx(cfg, agent="A", turn_id=i + 1, now=world.NOW_ISO)
+            if case.get("entry") == "legacy":
+                from clematis.engine.stages.t3.legacy import plan_with_llm
+            elif case.get("entry") == "package":
+                from clematis.engine.stages.t3 import plan_with_llm
+            else:
+                plan_with_llm = policy.plan_with_llm
+            outs.append(plan_with_llm(ctx, state, _plain(cfg)))
+    finally:
+        policy._get_llm_adapter_from_cfg = orig
+    for out in outs:
+        if not isinstance(out, dict):
+            raise Violation(f"plan_with_llm returned {ascii(out)[:120]}, not a dict", case, "llm-planner-shape")
+        fallback = list(out.get("plan") or []) == [] and str(out.get("rationale", "")).startswith("fallback") and not out.get("reflection")
+        if not ok and not fallback:
+            raise Violation(f"planner text rejected by the sanitiser ({ascii(obj)[:80]}) still became a plan: {ascii(out)[:200]}", case,
+                            "llm-planner-accepts-rejected")
+        if ok and not fallback:
+            if out.get("plan") != obj["plan"] or out.get("rationale") != obj["rationale"] or \
+                    bool(out.get("reflection", False)) != obj["reflection"] or set(out) - {"plan", "rationale", "reflection"}:
+                raise Violation(f"accepted planner output {ascii(out)[:200]} is not the sanitised object {ascii(obj)[:200]}", case,
+                                "llm-planner-unsanitised")
+    if rec is not None:
+        muts = list(case.get("muts") or [])
+        nt = bool(muts) and isinstance(text, str) and (ok or _core_is_json(text))
+        rec.case(nontrivial=nt, dig=digest(case["text"] if isinstance(case["text"], str) else repr(case["text"])) if nt else None,
+                 labels=["accepted" if ok else "fallback", f"result={case['result']}", f"state={case['state']}",
+                         f"entry={case.get('entry', 'policy')}"],
+                 sample={"muts": muts, "ok": ok, "text": ascii(text)[:120]} if nt else None)
+
+
+def sub_llm_planner(rec, seed, shard, nshards, n=300, shrink=True):
+    run_hypothesis(rec, seed, llm_planner_cases(), lambda c: check_llm_planner(c, rec), max_examples=n, shrink=shrink, name="llm_planner")
+
+
+def replay_llm_planner(case):
+    check_llm_planner(case, None)
+
+
 # ---------------------------------------------------------------- atheris byte target
 
 FUZZ_MODES = 16
@@ -1291,6 +1632,7 @@ SUBCHECKS = [
     Sub("speaker", sub_speaker, quick={"n": 750}, thorough={"n": 7000}, shards_quick=4, shards_thorough=16, replay=replay_speaker),
     Sub("refine", sub_refine, quick={"n": 100}, thorough={"n": 1500}, shards_quick=4, shards_thorough=16, replay=replay_refine),
     Sub("sanitiser", sub_sanitiser, quick={"n": 1250}, thorough={"n": 7000}, shards_quick=4, shards_thorough=16, replay=replay_sanitiser),
+    Sub("llm_planner", sub_llm_planner, quick={"n": 300}, thorough={"n": 3000}, shards_quick=4, shards_thorough=16, replay=replay_llm_planner),
     Sub("sanitiser_atheris", sub_sanitiser_atheris, quick={"runs": 30000}, thorough={"runs": 1250000}, shards_quick=1,
         shards_thorough=4, replay=replay_sanitiser),
 ]
